@@ -17,14 +17,11 @@ Qed.
 Section T.
 Variable n : net.
 Variable sl : list slinfo.
-Variable arr : nat -> ptensor.
 
 Notation T := (term_sl n sl).
 Notation cnt := (cnt n sl).
 Notation appear := (appear n).
 Notation dim := (dim n).
-Notation F := (F n arr).
-Notation prodF := (prodF n arr).
 Notation inrange := (inrange n).
 
 Definition allixS (S : list nat) : list ix := concat (map T S).
@@ -67,39 +64,6 @@ Proof.
     { unfold term_sl. apply filter_In. split; [exact Hj|]. apply negb_true_iff, memb_false, Hr. }
     apply occ_pos in H. lia.
   - apply (IH ltac:(lia) Hr Hin Hj).
-Qed.
-
-(* ---------- independence / respect facts ---------- *)
-Lemma F_respects k : respects (F k).
-Proof. intros e1 e2 He. unfold Einsum.F. f_equal. apply map_ext. intros; apply He. Qed.
-
-Lemma prodF_respects S : respects (prodF S).
-Proof.
-  induction S as [|k S IH]; intros e1 e2 He; cbn [Einsum.prodF]; [reflexivity|].
-  rewrite (F_respects k e1 e2 He), (IH e1 e2 He). reflexivity.
-Qed.
-
-Lemma prodF_app S1 S2 e : prodF (S1 ++ S2) e = prodF S1 e * prodF S2 e.
-Proof.
-  induction S1 as [|k S1 IH].
-  - change ([] ++ S2) with S2. cbn [Einsum.prodF]. ring.
-  - change ((k :: S1) ++ S2) with (k :: (S1 ++ S2)). cbn [Einsum.prodF]. rewrite IH. ring.
-Qed.
-
-Lemma prodF_perm S1 S2 e : Permutation S1 S2 -> prodF S1 e = prodF S2 e.
-Proof. induction 1; cbn [Einsum.prodF]; try ring; [rewrite IHPermutation; ring|congruence]. Qed.
-
-Lemma prodF_indep S js :
-  (forall j, In j js -> cnt S j = 0%nat /\ ~ In j (removed sl)) -> indep (prodF S) js.
-Proof.
-  intros H e1 e2 He.
-  assert (G : forall S', incl S' S -> prodF S' e1 = prodF S' e2).
-  { induction S' as [|k S' IH]; intros Hincl; cbn [Einsum.prodF]; [reflexivity|].
-    rewrite IH by (intros x Hx; apply Hincl; right; exact Hx). f_equal.
-    unfold Einsum.F. f_equal. apply map_ext_in. intros j Hj. apply He. intros Hin.
-    destruct (H j Hin) as [Hc Hr].
-    apply (cnt_zero_not_in_term S j k Hc Hr); [apply Hincl; left; reflexivity|exact Hj]. }
-  apply G. intros x Hx; exact Hx.
 Qed.
 
 (* ---------- the indices summed at a node are exactly those that die there ---------- *)
@@ -173,44 +137,6 @@ Proof.
       left. lia.
 Qed.
 
-(* ---------- main invariant: every subtree computes the sum, over the indices
-              that have died inside it, of the product of its leaves ---------- *)
-Theorem evalS_is_sum t : inrange (leaves t) -> forall e,
-  evalS n sl arr t e = sum_over dim (dead (leaves t)) e (prodF (leaves t)).
-Proof.
-  induction t as [k | l IHl r IHr]; intros HR e.
-  - cbn [evalS leaves].
-    assert (Hk : (k < NN n)%nat) by (apply HR; left; reflexivity).
-    rewrite (sum_over_perm dim (leaf_summed n sl k) (dead [k])).
-    + apply sum_over_ext. intros e'. cbn [Einsum.prodF]. ring.
-    + apply NoDup_Permutation; [apply NoDup_leaf_summed|apply NoDup_dead|].
-      intros j. rewrite (in_leaf_summed k j Hk), in_dead. tauto.
-    + apply NoDup_leaf_summed.
-    + apply F_respects.
-  - cbn [evalS leaves].
-    pose proof (inrange_app_l n _ _ HR) as HL. pose proof (inrange_app_r n _ _ HR) as HRr.
-    set (L := leaves l) in *. set (R := leaves r) in *.
-    assert (HLR : forall j, (cnt L j + cnt R j <= appear j)%nat).
-    { intros j. rewrite <- cnt_app. apply cnt_le_appear, HR. }
-    assert (HP := dead_perm_gen (summed n sl false (Node l r)) L R HR
-                    (NoDup_summed false _ (NoDup_involved l r HR)) (fun j => in_summed_sub l r j HR)).
-    rewrite <- (sum_over_perm dim _ _ HP).
-    2:{ eapply Permutation_NoDup; [symmetry; exact HP|apply NoDup_dead]. }
-    2:{ apply prodF_respects. }
-    rewrite sum_over_app.
-    apply sum_over_ext. intros e'.
-    rewrite (IHl HL e'), (IHr HRr e').
-    rewrite (sum_over_mul dim (dead L) (dead R) e' (prodF L) (prodF R)).
-    + apply sum_over_ext. intros e''. symmetry. apply prodF_app.
-    + apply prodF_indep. intros j Hj. apply in_dead in Hj. split.
-      * specialize (HLR j). lia.
-      * apply (cnt_pos_not_removed R). lia.
-    + apply prodF_indep. intros j Hj. apply in_dead in Hj. split.
-      * specialize (HLR j). lia.
-      * apply (cnt_pos_not_removed L). lia.
-    + apply prodF_respects.
-Qed.
-
 (* ---------- the root ---------- *)
 Definition wf_net : Prop := NoDup (output n) /\ incl (output n) (concat (inputs n)).
 Definition full_tree (t : tree) : Prop := Permutation (leaves t) (seq 0 (NN n)).
@@ -261,6 +187,81 @@ Proof.
   - split; [lia|intros [_ [? _]]; congruence].
   - rewrite memb_false, (occ_pos (output n) j). split; [intros [? ?]; repeat split; try assumption; lia|].
     intros [? [_ ?]]. split; [assumption|lia].
+Qed.
+
+Variable arr : nat -> ptensor.
+Notation F := (F n arr).
+Notation prodF := (prodF n arr).
+
+(* ---------- independence / respect facts ---------- *)
+Lemma F_respects k : respects (F k).
+Proof. intros e1 e2 He. unfold Einsum.F. f_equal. apply map_ext. intros; apply He. Qed.
+
+Lemma prodF_respects S : respects (prodF S).
+Proof.
+  induction S as [|k S IH]; intros e1 e2 He; cbn [Einsum.prodF]; [reflexivity|].
+  rewrite (F_respects k e1 e2 He), (IH e1 e2 He). reflexivity.
+Qed.
+
+Lemma prodF_app S1 S2 e : prodF (S1 ++ S2) e = prodF S1 e * prodF S2 e.
+Proof.
+  induction S1 as [|k S1 IH].
+  - change ([] ++ S2) with S2. cbn [Einsum.prodF]. ring.
+  - change ((k :: S1) ++ S2) with (k :: (S1 ++ S2)). cbn [Einsum.prodF]. rewrite IH. ring.
+Qed.
+
+Lemma prodF_perm S1 S2 e : Permutation S1 S2 -> prodF S1 e = prodF S2 e.
+Proof. induction 1; cbn [Einsum.prodF]; try ring; [rewrite IHPermutation; ring|congruence]. Qed.
+
+Lemma prodF_indep S js :
+  (forall j, In j js -> cnt S j = 0%nat /\ ~ In j (removed sl)) -> indep (prodF S) js.
+Proof.
+  intros H e1 e2 He.
+  assert (G : forall S', incl S' S -> prodF S' e1 = prodF S' e2).
+  { induction S' as [|k S' IH]; intros Hincl; cbn [Einsum.prodF]; [reflexivity|].
+    rewrite IH by (intros x Hx; apply Hincl; right; exact Hx). f_equal.
+    unfold Einsum.F. f_equal. apply map_ext_in. intros j Hj. apply He. intros Hin.
+    destruct (H j Hin) as [Hc Hr].
+    apply (cnt_zero_not_in_term S j k Hc Hr); [apply Hincl; left; reflexivity|exact Hj]. }
+  apply G. intros x Hx; exact Hx.
+Qed.
+
+(* ---------- main invariant: every subtree computes the sum, over the indices
+              that have died inside it, of the product of its leaves ---------- *)
+Theorem evalS_is_sum t : inrange (leaves t) -> forall e,
+  evalS n sl arr t e = sum_over dim (dead (leaves t)) e (prodF (leaves t)).
+Proof.
+  induction t as [k | l IHl r IHr]; intros HR e.
+  - cbn [evalS leaves].
+    assert (Hk : (k < NN n)%nat) by (apply HR; left; reflexivity).
+    rewrite (sum_over_perm dim (leaf_summed n sl k) (dead [k])).
+    + apply sum_over_ext. intros e'. cbn [Einsum.prodF]. ring.
+    + apply NoDup_Permutation; [apply NoDup_leaf_summed|apply NoDup_dead|].
+      intros j. rewrite (in_leaf_summed k j Hk), in_dead. tauto.
+    + apply NoDup_leaf_summed.
+    + apply F_respects.
+  - cbn [evalS leaves].
+    pose proof (inrange_app_l n _ _ HR) as HL. pose proof (inrange_app_r n _ _ HR) as HRr.
+    set (L := leaves l) in *. set (R := leaves r) in *.
+    assert (HLR : forall j, (cnt L j + cnt R j <= appear j)%nat).
+    { intros j. rewrite <- cnt_app. apply cnt_le_appear, HR. }
+    assert (HP := dead_perm_gen (summed n sl false (Node l r)) L R HR
+                    (NoDup_summed false _ (NoDup_involved l r HR)) (fun j => in_summed_sub l r j HR)).
+    rewrite <- (sum_over_perm dim _ _ HP).
+    2:{ eapply Permutation_NoDup; [symmetry; exact HP|apply NoDup_dead]. }
+    2:{ apply prodF_respects. }
+    rewrite sum_over_app.
+    apply sum_over_ext. intros e'.
+    rewrite (IHl HL e'), (IHr HRr e').
+    rewrite (sum_over_mul dim (dead L) (dead R) e' (prodF L) (prodF R)).
+    + apply sum_over_ext. intros e''. symmetry. apply prodF_app.
+    + apply prodF_indep. intros j Hj. apply in_dead in Hj. split.
+      * specialize (HLR j). lia.
+      * apply (cnt_pos_not_removed R). lia.
+    + apply prodF_indep. intros j Hj. apply in_dead in Hj. split.
+      * specialize (HLR j). lia.
+      * apply (cnt_pos_not_removed L). lia.
+    + apply prodF_respects.
 Qed.
 
 (* THE semantic theorem: contracting through ANY complete tree gives the einsum *)
